@@ -66,4 +66,18 @@ PROPS = {
             rapid("c16", "TestPropDecode", quick=(40000, 3), thorough=(500000, 8)),
         ],
     },
+    "C20": {
+        "level": "exploration",
+        "rule": "(name, delimiter, reference, pattern) over the alphabet {a,b,/,.,*,%,e-acute,CJK}: exhaustive for names x patterns of <=3 "
+                "(quick) / <=4 (thorough) symbols x delimiters {'/','.',none,non-ASCII} with the empty reference and one symbol shorter x 6 "
+                "references; random to length 12 with names derived from the pattern so matches are frequent. Oracle: reference "
+                "resolution as fixed by TestMatchList + rune-wise DP matcher, cross-checked against an anchored regexp. Non-trivial: "
+                "pattern has a wildcard and the name contains the delimiter; distinct by hash of the 4-tuple.",
+        "assumptions": ["names, references and patterns are valid UTF-8", "call time is recorded (exponential backtracking) but not judged"],
+        "units": [
+            plain("c20", "TestReplayRegressions"),
+            plain("c20", "TestEnumSmallScope", shards_q=4, shards_t=16),
+            rapid("c20", "TestPropRandom", quick=(60000, 3), thorough=(1000000, 12)),
+        ],
+    },
 }
